@@ -2,7 +2,7 @@
 # usage: tools/seedevalall.sh Cxx [Cyy...] -- evaluates /tmp/mut_Cxx/_out/{1,2,3} sequentially
 for P in "$@"; do
   for i in 1 2 3; do
-    d=/tmp/mut_$P/_out/$i
+    d=${MUT_PREFIX:-/tmp/mut_}$P/_out/$i
     [ -f $d/patch.diff ] || continue
     [ -f $d/eval.json ] && continue
     echo "== $P $i: $(cd /verif && tools/seedeval.sh $P $d 2>&1 | tail -1)"
